@@ -17,11 +17,18 @@ PATCH=$SRC/patch$K.diff
 rm -rf $WT; git -C /repo worktree add -q --detach $WT HEAD || exit 3
 cd $WT
 res_apply=ok; git apply $PATCH 2>/dev/null || git apply -3 $PATCH || res_apply=fail
+# RECHECK_ONLY=1: the refactoring was confirmed earlier (meta.json holds the test and equivalence outcome);
+# only the checks are run again, e.g. after a change of the machinery
+if [ "${RECHECK_ONLY:-0}" = "1" ] && [ -f $OUT/meta.json ]; then
+  tests=$(/venv/bin/python -c "import json;print(json.load(open('$OUT/meta.json'))['tests_with_change'])")
+  same=$(/venv/bin/python -c "import json;print('yes' if json.load(open('$OUT/meta.json'))['equivalence_digest_identical'] else 'no')")
+else
 tests=$(PYTHONPATH=$WT timeout 900 /venv/bin/python -m pytest -q -p no:cacheprovider tests 2>&1 | tail -1)
 LOCK=/tmp/seedlock_$(basename $ORIG)
 flock $LOCK sh -c "cd $ORIG && git checkout -q -- . && git clean -fdq -e seed_out -e __pycache__ && git apply $SRC/patch$K.diff && PYTHONPATH=$ORIG timeout 3000 /venv/bin/python seed_out/equiv$K.py > $WT/equiv_with.log 2> $WT/equiv_with.err; git checkout -q -- .; git clean -fdq -e seed_out -e __pycache__"
 flock $LOCK sh -c "cd $ORIG && git checkout -q -- . && PYTHONPATH=$ORIG timeout 3000 /venv/bin/python seed_out/equiv$K.py > $WT/equiv_without.log 2> $WT/equiv_without.err"
 same=no; cmp -s $WT/equiv_with.log $WT/equiv_without.log && [ -s $WT/equiv_with.log ] && same=yes
+fi
 mkdir -p $WT/chk
 ls /verif/sa/checks | sed -n 's/^\(c[0-9][0-9]\)\.py$/\1/p' | tr a-z A-Z | xargs -P 10 -I{} sh -c "cd /verif && timeout 900 /venv/bin/python sa/run.py {} --repo $WT --scratch > $WT/chk/{}.log 2>&1; echo \$? > $WT/chk/{}.rc"
 mkdir -p $OUT
@@ -35,6 +42,7 @@ for f in $WT/chk/*.rc; do id=$(basename $f .rc); rc=$(cat $f);
 done
 BENIGN_TAG=$TAG /venv/bin/python - "$P" "$K" "$res_apply" "$tests" "$same" "$alarm" "$undec" <<'PY'
 import json,sys
+from os import environ as _os_env
 P,K,app,tests,same,alarm,undec=sys.argv[1:8]
 import os, re
 # what the checks said the first time this refactoring was run (before any correction of the machinery):
@@ -57,6 +65,9 @@ meta={"property":P,"variant":int(K),"kind":"behaviour-preserving refactoring","p
       "checks_raising_alarm":alarm.split(),"checks_analysis_incomplete":undec.split(),
       "first_pass": first_pass,
       "how_run":"sa/benigncheck.sh %s %s: patch applied in a scratch worktree of /repo HEAD; pytest tests; equiv script with/without the change in the agent's worktree (outputs compared); every check run with --repo <worktree> --scratch"%(P,K)}
+import subprocess as _sp
+meta["machinery_commit"]=_sp.run(["git","-C","/verif","rev-parse","--short","HEAD"],capture_output=True,text=True).stdout.strip()
+meta["checks_rerun_only"]=_os_env.get("RECHECK_ONLY","0")=="1"
 json.dump(meta,open("/verif/seeded/benign/%s/meta.json"%TAG,"w"),indent=1)
 print(json.dumps(meta))
 PY
